@@ -191,7 +191,7 @@ def check_c16(case, stats):
 
 
 CHECKS = {'check_c16': check_c16}
-_B = {'quick': (50, 16), 'thorough': (400, 30)}
+_B = {'quick': (50, 16), 'thorough': (800, 30)}
 
 
 def shards(tier):
